@@ -411,36 +411,50 @@ def customasm_build(profiles=("debug",)):
 # ----------------------------------------------------------------------------- sharded line runners
 def run_lines(cmd, lines, shards=NCPU, timeout=900, env=None, per_case=1):
     """Feed `lines` (list of str; each CASE = per_case consecutive lines) to `shards` copies of cmd
-    (stdin -> stdout, one answer line per case), preserving order.  Returns list of answer lines."""
+    (stdin -> stdout, one answer line per case), preserving order.  Returns list of answer lines.
+    A process that dies (or times out) on a case answers "CRASH" for THAT case only: the cases behind it are re-run in a
+    fresh process (a crash on one input must not be blamed on its neighbours)."""
     ncase = len(lines) // per_case
     if ncase == 0:
         return []
     shards = max(1, min(shards, ncase))
     bounds = [(ncase * i // shards, ncase * (i + 1) // shards) for i in range(shards)]
-    procs = []
-    for a, b in bounds:
-        data = "\n".join(lines[a * per_case:b * per_case]) + "\n"
-        p = subprocess.Popen(cmd, stdin=subprocess.PIPE, stdout=subprocess.PIPE, stderr=subprocess.DEVNULL,
-                             text=True, env=env)
-        procs.append((p, data, b - a))
     import threading
-    outs = [None] * len(procs)
+    outs = [None] * len(bounds)
 
-    def work(i):
-        p, data, n = procs[i]
+    def once(case_lines, n):
+        p = subprocess.Popen(cmd, stdin=subprocess.PIPE, stdout=subprocess.PIPE, stderr=subprocess.DEVNULL, text=True, env=env)
         try:
-            o, _ = p.communicate(data, timeout=timeout)
+            o, _ = p.communicate("\n".join(case_lines) + "\n", timeout=timeout)
             ans = o.split("\n")
             if ans and ans[-1] == "":
                 ans.pop()
         except subprocess.TimeoutExpired:
             p.kill()
-            ans = []
-        if len(ans) < n:
-            ans += ["CRASH"] * (n - len(ans))
+            try:
+                o, _ = p.communicate(timeout=5)
+                ans = o.split("\n")[:-1]      # drop a possibly partial last line
+            except Exception:
+                ans = []
+        return ans[:n]
+
+    def work(i):
+        a, b = bounds[i]
+        n = b - a
+        ans = []
+        restarts = 0
+        while len(ans) < n:
+            done = len(ans)
+            got = once(lines[(a + done) * per_case:b * per_case], n - done)
+            ans += got
+            if len(ans) < n:
+                ans.append("CRASH")            # the case the process died on
+                restarts += 1
+                if restarts > 25:              # something is systematically wrong: do not loop for ever
+                    ans += ["CRASH"] * (n - len(ans))
         outs[i] = ans[:n]
 
-    ths = [threading.Thread(target=work, args=(i,)) for i in range(len(procs))]
+    ths = [threading.Thread(target=work, args=(i,)) for i in range(len(bounds))]
     for t in ths:
         t.start()
     for t in ths:
